@@ -415,7 +415,7 @@ pub fn run(args: &Args) -> i32 {
         rep.finish();
         return 0;
     }
-    let n = args.count(2400, 60_000);
+    let n = args.count(12_000, 160_000);
     let range: Vec<u64> = match args.case {
         Some(c) => vec![c],
         None => (0..n).collect(),
